@@ -1,5 +1,6 @@
 # -*- coding: utf-8 -*-
 
+import copy
 import functools as ft
 from typing import Any, Callable, Mapping, Optional, Type, cast
 
@@ -171,10 +172,12 @@ def execute_subscription_event(
     event: Any,
 ) -> Any:
     # As we carry the executor through the source stream iteration we need to
-    # clear the errors between events.
-    # REVIEW: We could split the Executor in 2 parts to maintain the benefit
-    # of the caches while isolating the errors.
-    executor.clear_errors()
+    # isolate the errors between events: every event runs against a shallow
+    # copy sharing the caches but owning its error list, so that work still in
+    # flight for an event which failed as a whole cannot report into the
+    # results of later events.
+    executor = copy.copy(executor)
+    executor._errors = []
 
     return executor.runtime.ensure_wrapped(
         executor.runtime.map_value(
